@@ -40,6 +40,7 @@ func init() {
 			"C12.R2 TABLE/shape: EncodeName two-digit hex, DecodeName consumes two digits",
 			"C12.R3 byte exactness: no integer->string conversions in the codecs; Unescape returns its buffer unprocessed",
 			"C12.R4 MPT: a byte needsHexSequence reports is always written in '#' form (decision per byte)",
+			"C12.R6 shape: DecodeName / EncodeName compare the length of their argument with no constant above 3 (no length limit on the encoded form)",
 			"C12.R5 MPT (go/cfg): in Unescape a byte written inside an escape sequence is followed by an assignment of the escape flag before the next byte",
 		},
 		Assumptions: []string{"encoding/hex renders one byte as two digits"},
@@ -511,6 +512,8 @@ func runC12(c *Ctx) {
 	r.MinInst["C12.R4"] = 1
 	checkNameEscapeDecision(c, "C12.R4")
 	r.MinInst["C12.R5"] = 1
+	r.MinInst["C12.R6"] = 2
+	checkNameCodecNoLengthLimit(c)
 	checkEscapeStateReset(c, "C12.R5")
 	r.MinInst["C12.R3"] = 5
 	checkByteExactCodecs(c)
@@ -1092,6 +1095,52 @@ func checkAtomicSerialisersWhole(c *Ctx) {
 			r.Bad("C11.R7", fid, "writes the whole value", p.Pos(pos), strings.Join(bad, "; ")+": PDFString returns what String returns, so a shortened or length-dependent rendering is what the writer emits — the string read back is not the string that was written")
 		} else {
 			r.OK("C11.R7", fid, "writes the whole value", p.Pos(root.Pos()), fmt.Sprintf("%d functions reachable in pkg/pdfcpu/types: the receiver is not sliced and no branch depends on its length", len(fns)), true)
+		}
+	}
+}
+
+// ---------------- C12.R6 (round 4 seed C12-H): the name codec has no length limit of its own ----------------
+
+// checkNameCodecNoLengthLimit: "for every string without NUL, decoding its encoded name form yields the original". The
+// encoded form is up to three times as long as the name, so a limit on the ARGUMENT of DecodeName (or EncodeName) — the
+// Annex C limit of 127 bytes applied to the wrong side, or at all — rejects names the encoder produces. The only
+// comparisons of len(parameter) with a constant these functions may make concern the two hex digits after '#'
+// (constants up to 3).
+func checkNameCodecNoLengthLimit(c *Ctx) {
+	p, r := c.P, c.R
+	for _, fid := range []string{"pkg/pdfcpu/types.DecodeName", "pkg/pdfcpu/types.EncodeName"} {
+		fn := p.Func(fid)
+		if fn == nil || len(fn.Params) == 0 {
+			r.Bad("C12.R6", fid, "anchor", "", "UNRESOLVED-ANCHOR")
+			continue
+		}
+		var limit string
+		var pos token.Pos
+		eachInstr(fn, func(_ *ssa.BasicBlock, _ int, i ssa.Instruction) {
+			bo, ok := i.(*ssa.BinOp)
+			if !ok {
+				return
+			}
+			switch bo.Op {
+			case token.LSS, token.LEQ, token.GTR, token.GEQ, token.EQL, token.NEQ:
+			default:
+				return
+			}
+			for _, pair := range [][2]ssa.Value{{bo.X, bo.Y}, {bo.Y, bo.X}} {
+				la := lenArgOf(pair[0])
+				if la == nil || la != ssa.Value(fn.Params[0]) {
+					continue
+				}
+				if k, ok := constInt(pair[1]); ok && k > 3 {
+					limit = fmt.Sprintf("len(%s) %s %d", fn.Params[0].Name(), bo.Op, k)
+					pos = bo.Pos()
+				}
+			}
+		})
+		if limit != "" {
+			r.Bad("C12.R6", fid, "no length limit", p.Pos(pos), "the codec compares the length of its argument with a constant ("+limit+"): an encoded name is up to three times as long as the name, so names the encoder produces (43 or more bytes that need a hex sequence) are no longer decoded")
+		} else {
+			r.OK("C12.R6", fid, "no length limit", p.Pos(fn.Pos()), "no comparison of the argument's length with a constant above 3", true)
 		}
 	}
 }
